@@ -54,11 +54,27 @@ class InjectedInterrupt(BaseException):
     """an interruption that is not an Exception subclass (like KeyboardInterrupt / SystemExit)"""
 
 
+class PoolShutdownError(RuntimeError):
+    """raised by a pool whose close() fails (e.g. a remote / MPI pool)"""
+
+
+class PoolShutdownInterrupt(BaseException):
+    """an interruption arriving while the pool is being joined (like Ctrl-C during join())"""
+
+
+# pools whose own shutdown fails: leaving the context through THAT exception is one more exit path
+FAULTY = [
+    {"ctx": "pool", "close_pool": True, "parallelize_prior": True, "pool_fault": "close"},
+    {"ctx": "pool", "close_pool": True, "parallelize_prior": False, "pool_fault": "join"},
+]
+
+
 class FakePool:
-    def __init__(self):
+    def __init__(self, fault=None):
         self.closed = 0
         self.joined = 0
         self.maps = 0
+        self.fault = fault
 
     def map(self, fn, it):
         self.maps += 1
@@ -66,9 +82,13 @@ class FakePool:
 
     def close(self):
         self.closed += 1
+        if self.fault == "close":
+            raise PoolShutdownError("close failed")
 
     def join(self):
         self.joined += 1
+        if self.fault == "join":
+            raise PoolShutdownInterrupt("interrupted in join")
 
 
 _MISSING = "<no _checkpoint_defaults attribute>"
@@ -99,6 +119,7 @@ class Runner:
         self.depth_at_fault = 0
         self.max_depth = 0
         self.pool_seen_by_likelihood = []
+        self.shared_pool = None
         xp = env.xp_of("numpy")
         me = self
 
@@ -152,7 +173,14 @@ class Runner:
         before = _snap(a)
         pool = None
         if node["ctx"] == "pool":
-            pool = FakePool()
+            if node.get("shared"):
+                # one pool object used by several (nested or consecutive) contexts of this instance
+                if self.shared_pool is None:
+                    self.shared_pool = FakePool()
+                pool = self.shared_pool
+            else:
+                pool = FakePool(node.get("pool_fault"))
+            pre_exit = None
             cm = a.enable_pool(pool, close_pool=node["close_pool"], parallelize_prior=node["parallelize_prior"])
         else:
             cm = a.auto_checkpoint(os.path.join(self.tmp, f"f{node.get('path', 0)}.h5"), every=node["every"],
@@ -172,8 +200,12 @@ class Runner:
                     # (observed through the attribute the pinned tree uses; if a refactoring moves it, this sub-check is skipped)
                     if d is not None and (d.get("every") != node["every"] or d.get("save_config") != node["save_config"]):
                         self.ctx.fail("auto-not-installed", f"inside auto_checkpoint the defaults are {d!r}", self.case)
-                self.body(node.get("body", []), depth + 1)
-                if pool is not None and (pool.closed or pool.joined):
+                try:
+                    self.body(node.get("body", []), depth + 1)
+                finally:
+                    if pool is not None:
+                        pre_exit = (pool.closed, pool.joined)
+                if pool is not None and not node.get("shared") and (pool.closed or pool.joined):
                     self.ctx.fail("pool-closed-early", "pool was closed before the context exited", self.case)
         finally:
             after = _snap(a)
@@ -192,11 +224,13 @@ class Runner:
                 self.ctx.fail("not-restored", f"after leaving {node['ctx']} context at depth {depth} "
                                               f"({'exception' if self.fault is not None else 'normal exit'}): {', '.join(what)} not restored",
                               self.case, ctx_kind=node["ctx"], depth=depth, exceptional=self.fault is not None)
-            if pool is not None:
+            if pool is not None and not node.get("pool_fault") and pre_exit is not None:
                 want = 1 if node["close_pool"] else 0
-                if pool.closed != want or pool.joined != want:
-                    self.ctx.fail("pool-close", f"close_pool={node['close_pool']} but close/join were called {pool.closed}/{pool.joined} times",
-                                  self.case, close_pool=node["close_pool"])
+                got = (pool.closed - pre_exit[0], pool.joined - pre_exit[1])
+                if got != (want, want):
+                    self.ctx.fail("pool-close", f"close_pool={node['close_pool']} but leaving the context called close/join {got[0]}/{got[1]} times"
+                                                f"{' (pool object shared with another context of this instance)' if node.get('shared') else ''}",
+                                  self.case, close_pool=node["close_pool"], shared=bool(node.get("shared")))
 
 
 def run_case(case, ctx):
@@ -210,6 +244,8 @@ def run_case(case, ctx):
         except (InjectedFault, InjectedInterrupt) as e:
             if e is not r.fault:
                 ctx.fail("exception-identity", "a different exception object propagated", case)
+        except (PoolShutdownError, PoolShutdownInterrupt):
+            pass  # the pool's own shutdown failed: that exception is the exit path (everything must still be restored)
         if not _same(top, _snap(r.a)):
             ctx.fail("not-restored", "state after the outermost context differs from the state before it", case, depth=0)
     finally:
@@ -239,12 +275,14 @@ def _count_points(tree):
 
 def extra(tier, ctx, seed):
     n = 0
+    ALL = VARIANTS + FAULTY
     for depth in (1, 2, 3):
-        for combo in itertools.product(range(len(VARIANTS)), repeat=depth):
+        # (chains of depth 3 over the 8 ordinary variants; the pools whose shutdown fails take part in depth 1 and 2)
+        for combo in itertools.product(range(len(VARIANTS) if depth == 3 else len(ALL)), repeat=depth):
             for inner in ("noop", "sample"):
                 tree = [{"do": inner}]
                 for v in reversed(combo):
-                    tree = [dict(VARIANTS[v], body=tree)]
+                    tree = [dict(ALL[v], body=tree)]
                 npts = _count_points(tree)
                 for fault_at in [None] + list(range(npts)):
                     kinds = ["exception"] if (fault_at is None or inner == "sample") else ["exception", "interrupt"]
@@ -252,8 +290,16 @@ def extra(tier, ctx, seed):
                         case = {"tree": tree, "fault_at": fault_at, "fault_kind": kind, "part": "exhaustive-chain"}
                         ctx.cell(case, run_case)
                         n += 1
+    pools = [v for v in VARIANTS if v["ctx"] == "pool"]
+    for v1, v2 in itertools.product(pools, repeat=2):
+        nested = [dict(v1, shared=True, body=[dict(v2, shared=True, body=[{"do": "noop"}])])]
+        consecutive = [dict(v1, shared=True, body=[{"do": "noop"}]), dict(v2, shared=True, body=[{"do": "noop"}])]
+        for tree in (nested, consecutive):
+            for fault_at in [None] + list(range(_count_points(tree))):
+                ctx.cell({"tree": tree, "fault_at": fault_at, "fault_kind": "exception", "part": "exhaustive-shared-pool"}, run_case)
+                n += 1
     return {"exhaustive": True, "exhaustive_chain_cases": n,
-            "exhaustive_note": "all chains of depth 1..3 over 8 context variants x every injection position x {no-op, sampling} body"}
+            "exhaustive_note": "all chains of depth 1..3 over 8 context variants (depth 1..2: plus 2 pools whose close()/join() raises) x every injection position x {no-op, sampling} body; plus every nested / consecutive pair of pool contexts on ONE shared pool object x every injection position"}
 
 
 # ---- generated trees ---------------------------------------------------------------------------
@@ -261,7 +307,13 @@ _op = st.sampled_from([{"do": "noop"}, {"do": "noop"}, {"do": "sample"}, {"do": 
 
 
 def _node(children):
-    return st.builds(lambda v, body: dict(VARIANTS[v], body=body), st.integers(0, len(VARIANTS) - 1), st.lists(children, min_size=0, max_size=3))
+    def mk(v, body, shared):
+        node = dict((VARIANTS + FAULTY)[v], body=body)
+        if shared and node["ctx"] == "pool" and not node.get("pool_fault"):
+            node["shared"] = True
+        return node
+
+    return st.builds(mk, st.integers(0, len(VARIANTS) + len(FAULTY) - 1), st.lists(children, min_size=0, max_size=3), st.sampled_from([False, False, True]))
 
 
 _tree = st.recursive(_op, _node, max_leaves=8)
